@@ -34,7 +34,21 @@ def refinement(*conditions: ConditionType) -> SymbolicExpression[T]:
     new_conditions_root = ExceptIf(SymbolicExpression._current_parent_(), new_branch)
     new_branch._node_.weight = RDREdge.Refinement
     new_conditions_root._parent_ = prev_parent
+    _replace_operand(prev_parent, current_node, new_conditions_root)
     return new_conditions_root.right
+
+
+def _replace_operand(
+    parent: SymbolicExpression, old: SymbolicExpression, new: SymbolicExpression
+) -> None:
+    """
+    Make a binary operator that had `old` as one of its operands evaluate `new` instead.
+    """
+    if isinstance(parent, BinaryOperator):
+        if parent.left is old:
+            parent.left = new
+        elif parent.right is old:
+            parent.right = new
 
 
 def alternative(*conditions: ConditionType) -> SymbolicExpression[T]:
@@ -79,9 +93,7 @@ def alternative_or_next(
     """
     new_branch = chained_logic(AND, *conditions)
     current_node = SymbolicExpression._current_parent_()
-    if isinstance(current_node._parent_, (Alternative, Next)):
-        current_node = current_node._parent_
-    elif (
+    while isinstance(current_node._parent_, (Alternative, Next)) or (
         isinstance(current_node._parent_, ExceptIf)
         and current_node is current_node._parent_.left
     ):
@@ -98,6 +110,5 @@ def alternative_or_next(
         )
     new_branch._node_.weight = type_
     new_conditions_root._parent_ = prev_parent
-    if isinstance(prev_parent, BinaryOperator):
-        prev_parent.right = new_conditions_root
+    _replace_operand(prev_parent, current_node, new_conditions_root)
     return new_conditions_root.right
